@@ -28,14 +28,15 @@ static void emit_case_marker(const char *why)
 
 /* called by the ASan runtime when it starts to report an error */
 static int finished;
+int vp_quiet;   /* set in forked helper processes: they must not write protocol lines */
 /* a dying process still reports what its monitors saw up to now */
-void __asan_on_error(void) { emit_case_marker("asan"); if (!finished) vp_finish(); fflush(OUT); }
+void __asan_on_error(void) { emit_case_marker("asan"); if (!finished && !vp_quiet) vp_finish(); if (!vp_quiet) fflush(OUT); }
 
 static void on_fatal(int sig)
 {
 	emit_case_marker(sig == SIGABRT ? "abort" : sig == SIGSEGV ? "segv" : sig == SIGBUS ? "bus" : "signal");
-	if (!finished) vp_finish();
-	fflush(OUT);
+	if (!finished && !vp_quiet) vp_finish();
+	if (!vp_quiet) fflush(OUT);
 	signal(sig, SIG_DFL);
 	raise(sig);
 }
@@ -85,7 +86,7 @@ void vp_json_str(FILE *f, const char *s)
 
 static void emit(char tag, const char *key, const char *fmt, va_list ap)
 {
-	char buf[2048];
+	char buf[4096];
 	vsnprintf(buf, sizeof buf, fmt, ap);
 	fprintf(OUT, "%c {\"key\":", tag);
 	vp_json_str(OUT, key);
